@@ -22,10 +22,15 @@ CONSTANTS MaxNodes, MaxDepth,
           AllowPoison, \* BOOLEAN
           RootKinds,   \* subset of {"plain","flag","lst","both","cards","cardsab","itvar","itdef","itcards"}: defaults / vars of the root
           ShadowKinds, \* subset of {"fresh","same"}: variable of a NESTED iterator: a new name (jt) / the enclosing iterator's name
-          UvKinds      \* subset of {"none","flagoff","lstb","lstbad"}: user variables
+          UvKinds,     \* subset of {"none","flagoff","lstb","lstbad"}: user variables
+          SpellKinds   \* spellings of the boolean-ish fields (`enabled`, `critical`) used when the template is rendered:
+                       \* "canon","lead","trail","both","block","upper","cap","one","onesp" - see harness/cmd/wfload
 
-VARIABLES T, uv
-gvars == <<T, uv>>
+(* sp is a METAMORPHIC dimension: it only selects how `enabled` (literal or expression) is spelled in the  *)
+(* rendered YAML - surrounding whitespace, block scalar with trailing newline, upper / mixed case, "1".   *)
+(* Load(T, uv) does not take it: every spelling of a template must load to the tree of the canonical one. *)
+VARIABLES T, uv, sp
+gvars == <<T, uv, sp>>
 
 ASSUME PrintT(<<"SUBS", Subs>>)
 
@@ -63,13 +68,19 @@ ForSpec(fk, var, ov) ==
     [] fk = "be21" -> FS("be", "", 2, 1, "", "", "", var)
     [] fk = "be02" -> FS("be", "", 0, 2, "", "", "", var)
     [] fk = "be03" -> FS("be", "", 0, 3, "", "", "", var)
+    [] fk = "be11" -> FS("be", "", 1, 1, "", "", "", var)       \* equal bounds: one element
+    [] fk = "be20" -> FS("be", "", 2, 0, "", "", "", var)       \* inverted by two: empty
+    [] fk = "be3N" -> FS("be", "", 3, -1, "", "", "", var)      \* inverted by four, negative end: empty
+    [] fk = "beN1" -> FS("be", "", -1, 1, "", "", "", var)      \* negative begin: "-1", "0", "1"
+    [] fk = "beNN" -> FS("be", "", -1, -3, "", "", "", var)     \* both negative, inverted: empty
+    [] fk = "b2E" -> FS("be", "", 2, 0, "", ov, "", var)        \* begin 2, end {{ ov }}: inverted by up to three
     [] fk = "var" -> FS("var", "", 0, 0, "", "", "lst", var)
     [] fk = "dep" -> FS("dep", "", 0, 0, "", "", ov, var)       \* range: {{ $env['cards_' + ov] }}
     [] fk = "beE" -> FS("be", "", 1, 0, "", ov, "", var)        \* begin 1, end {{ ov }}
     [] fk = "bBe" -> FS("be", "", 0, 2, ov, "", "", var)        \* begin {{ ov }}, end 2
     [] OTHER -> FS("list", LE, 0, 0, "", "", "", var)
-DepKinds == {"dep", "beE", "bBe"}
-FirstConst(fk) == IF fk \in {"be12", "be21", "be02", "be03", "beE", "bBe"} THEN "1" ELSE IF fk = "dep" THEN "p" ELSE "a"
+DepKinds == {"dep", "beE", "bBe", "b2E"}
+FirstConst(fk) == IF fk \in {"be12", "be21", "be02", "be03", "beE", "bBe", "be11", "be20", "be3N", "beN1", "beNN", "b2E"} THEN "1" ELSE IF fk = "dep" THEN "p" ELSE "a"
 
 RECURSIVE DepthOf(_, _), AncSelf(_, _)
 DepthOf(TT, i) == IF i <= 1 THEN 0 ELSE 1 + DepthOf(TT, TT[i].par)
@@ -123,11 +134,12 @@ G_Add(par, k, fk, ek, vk, x, ps, sub, sh) ==
         /\ T' = Append(T, Nd(par, k, Initial(k) \o ToString(Len(T) + 1),
                              Dedupe([q \in 1..Len(sc2) |-> sc2[q][1]]), EnOf(ek, sc2), VsOf(vk, sc2), <<>>,
                              ps, x, sub, IF fk = "none" THEN <<>> ELSE <<ForSpec(fk, myvar, IF sc = <<>> THEN "" ELSE sc[Len(sc)][1])>>))
-  /\ UNCHANGED uv
+  /\ UNCHANGED <<uv, sp>>
 
 GenInit ==
   /\ \E rk \in RootKinds : T = <<Nd(0, "agg", "root", <<>>, ENT, RootVs(rk), RootDs(rk), FALSE, "none", "", <<>>)>>
   /\ \E uk \in UvKinds : uv = UvOf(uk)
+  /\ sp \in SpellKinds
 
 GenNext ==
   \E par \in 1..MaxNodes, k \in Kinds, fk \in ForKinds, ek \in EnKinds, vk \in VarKinds, x \in XKinds,
